@@ -688,4 +688,166 @@ theorem autoref_collect_then_shutdown {off : Bool} (a : AMgr) (hi : AInv off a)
   obtain ⟨m2, hs, hn2, hz2⟩ := shutdown_of_empty m1 hn1 hr1
   exact ⟨m1, m2, hg, hn1, hs, hn2, hz2⟩
 
+/-! ### `cube` (reordering not enabled): a loop of `var` and `apply "and"` inside the decorator -/
+
+/-- everything the autoref layer needs from a core computation, for every start state with
+reordering not enabled, plus: the reordering signal is never raised -/
+def Good {α : Type} (x : M α) : Prop :=
+  ∀ (m : Mgr) (ext : Nat → Nat), Inv m → m.lastLen = none → RefExact m ext →
+    Inv (x m).2 ∧ (x m).2.lastLen = none ∧ RefExact (x m).2 ext ∧
+    HeldExt m.tbl (x m).2.tbl ext ∧ (x m).1 ≠ .error .needsReordering
+
+theorem HeldExt.trans {t t' t'' : Tbl} {ext : Nat → Nat} (h1 : HeldExt t t' ext)
+    (h2 : HeldExt t' t'' ext) : HeldExt t t'' ext := by
+  intro u hu hp
+  obtain ⟨m1, d1⟩ := h1 u hu hp
+  obtain ⟨m2, d2⟩ := h2 u m1 hp
+  exact ⟨m2, fun σ => (d2 σ).trans (d1 σ)⟩
+
+theorem Good.pure {α : Type} (v : α) : Good (pure v : M α) :=
+  fun m ext hi ho hr => ⟨hi, ho, hr, HeldExt.refl _ _, by
+    show (Except.ok v : Except Err α) ≠ _
+    simp⟩
+
+theorem Good.bind {α β : Type} {x : M α} {f : α → M β} (hx : Good x) (hf : ∀ v, Good (f v)) :
+    Good (x >>= f) := by
+  intro m ext hi ho hr
+  obtain ⟨i1, o1, r1, h1, n1⟩ := hx m ext hi ho hr
+  have e : (x >>= f) m = M.bind' x f m := rfl
+  rw [e]
+  unfold M.bind'
+  generalize x m = res at i1 o1 r1 h1 n1
+  obtain ⟨r, m1⟩ := res
+  cases r with
+  | error e' =>
+    refine ⟨i1, o1, r1, h1, ?_⟩
+    intro h
+    have h' : e' = Err.needsReordering := by simpa using h
+    exact n1 (by rw [h'])
+  | ok v =>
+    obtain ⟨i2, o2, r2, h2, n2⟩ := hf v m1 ext i1 o1 r1
+    exact ⟨i2, o2, r2, h1.trans h2, n2⟩
+
+theorem Good.forIn {α β : Type} (f : α → β → M (ForInStep β)) (hf : ∀ a b, Good (f a b)) :
+    ∀ (l : List α) (b : β), Good (forIn l b f)
+  | [], b => by
+    show Good (Pure.pure b : M β)
+    exact Good.pure b
+  | a :: l, b => by
+    rw [List.forIn_cons]
+    refine Good.bind (hf a b) fun s => ?_
+    cases s with
+    | done b' => exact Good.pure b'
+    | yield b' => exact Good.forIn f hf l b'
+
+theorem Good.tryToReorder {α : Type} {f : M α} (hf : Good f) : Good (tryToReorder f) := by
+  intro m ext hi ho hr
+  obtain ⟨i1, o1, r1, h1, n1⟩ := hf { m with ctx := true } ext (hi.setCtx true) ho
+    ⟨hr.dom, hr.cnt, hr.extZero⟩
+  generalize hres : f { m with ctx := true } = res at i1 o1 r1 h1 n1
+  obtain ⟨r, m1⟩ := res
+  have key : Inv { m1 with ctx := m.ctx } ∧ ({ m1 with ctx := m.ctx } : Mgr).lastLen = none ∧
+      RefExact { m1 with ctx := m.ctx } ext ∧ HeldExt m.tbl ({ m1 with ctx := m.ctx } : Mgr).tbl ext :=
+    ⟨i1.setCtx _, o1, ⟨r1.dom, r1.cnt, r1.extZero⟩, h1⟩
+  cases r with
+  | ok a =>
+    rw [tryToReorder_ok f m a m1 hres]
+    exact ⟨key.1, key.2.1, key.2.2.1, key.2.2.2, by simp⟩
+  | error e =>
+    have hne : e ≠ .needsReordering := fun he => n1 (by rw [he])
+    rw [tryToReorder_err f m e m1 hres hne]
+    exact ⟨key.1, key.2.1, key.2.2.1, key.2.2.2, by simpa using hne⟩
+
+/-- from `CoreKeeps true` and "never signals" -/
+theorem Good.of_keeps {α : Type} {x : M α} (hk : CoreKeeps true x)
+    (hn : ∀ (m : Mgr) (ext : Nat → Nat), Inv m → m.lastLen = none → RefExact m ext →
+      (x m).1 ≠ .error .needsReordering) : Good x := by
+  intro m ext hi ho hr
+  obtain ⟨a, b, c, d⟩ := hk.keeps m ext (fun _ => ho) hi hr (x m).1 (x m).2 rfl
+  exact ⟨a, d rfl, b, c, hn m ext hi ho hr⟩
+
+theorem var_good (name : String) : Good (var name) :=
+  Good.of_keeps (var_keepsOff name) fun m ext hi ho hr => by
+    rw [var_eq]
+    exact (tryToReorder_rk ext (varBody name) m
+      (varBody_kept_rk name _ ext (hi.setCtx true) ho ⟨hr.dom, hr.cnt, hr.extZero⟩).2).2.2.2
+
+theorem atomVal_ne_signal (u v w : Int) (a : Atom) : atomVal u v w a ≠ .error .needsReordering := by
+  cases a <;> simp [atomVal]
+
+theorem assertOperatorArity_ne_signal (op : String) (v w : Option Int) :
+    assertOperatorArity op v w ≠ .error .needsReordering := by
+  unfold assertOperatorArity
+  repeat (first | (apply ite_ne') | simp)
+
+/-- `apply` never raises the reordering signal when reordering is not enabled (aliases that do
+not quantify) -/
+theorem apply_ne_signal_nq (ext : Nat → Nat) (m : Mgr) (op : String) (u : Int) (v w : Option Int)
+    (hnq : NonQuant op) (hc : m.tbl.Closed) (ho : m.lastLen = none) (hr : RefExact m ext) :
+    (apply op u v w m).1 ≠ .error .needsReordering := by
+  unfold apply
+  cases hA : assertOperatorArity op v w with
+  | error e =>
+    simp only
+    intro h
+    have h' : e = Err.needsReordering := by simpa using h
+    subst h'
+    exact assertOperatorArity_ne_signal op v w hA
+  | ok _ =>
+    simp only
+    split
+    · simp
+    · split
+      · simp
+      · split
+        · simp
+        · cases hrow : findRow op Gen.applyTable with
+          | none => simp
+          | some row =>
+            simp only
+            cases ht : row.templ with
+            | neg => simp
+            | notImpl => simp
+            | bad => simp
+            | quant fa f b => exact absurd ht (hnq row hrow fa f b)
+            | ite a b c =>
+              simp only
+              cases v with
+              | none => simp
+              | some vv =>
+                simp only
+                split
+                · simp
+                · split
+                  · exact (ite_rk ext m _ _ _ hc ho hr).2.2.2
+                  all_goals
+                    intro h
+                    have h' := h
+                    simp only [Except.error.injEq] at h'
+                    subst h'
+                    exact absurd (by assumption) (atomVal_ne_signal _ _ _ _)
+
+theorem apply_good (op : String) (hnq : NonQuant op) (u : Int) (v w : Option Int) :
+    Good (apply op u v w) :=
+  Good.of_keeps (apply_keepsOff op u v w hnq) fun m ext hi ho hr =>
+    apply_ne_signal_nq ext m op u v w hnq hi.wf.toWF.closed ho hr
+
+theorem cube_good (d : List (String × Bool)) : Good (cube d) := by
+  unfold cube
+  apply Good.tryToReorder
+  refine Good.bind (Good.forIn _ (fun x r => ?_) d 1) fun r => Good.pure r
+  obtain ⟨name, val⟩ := x
+  refine Good.bind (var_good name) fun u => ?_
+  refine Good.bind (apply_good "and" nonQuant_and _ _ _) fun r' => Good.pure _
+
+/-- `BDD.cube(dvars)` for ANY names, reordering not enabled -/
+theorem cube_keepsOff (d : List (String × Bool)) : CoreKeeps true (cube d) := by
+  refine ⟨fun m ext hm hi hc r m' he => ?_⟩
+  obtain ⟨a, b, c, e, _⟩ := cube_good d m ext hi (hm rfl) hc
+  rw [he] at a b c e
+  exact ⟨a, c, e, fun _ => b⟩
+
+theorem aCube_keepsOff (d : List (String × Bool)) (h : Nat) : AKeeps true h (aCube d h) :=
+  wrapResult_keeps (cube_keepsOff d) h
+
 end DD
